@@ -11,7 +11,7 @@ metas = [json.load(open(p)) for p in sorted(glob.glob(os.path.join(VERIF, 'seede
 
 
 def rnd(m):
-    mm = re.search(r'-r(\d)$', m['id'])
+    mm = re.search(r'-r(\d+)$', m['id'])
     return int(mm.group(1)) if mm else 1
 
 
